@@ -48,10 +48,16 @@ class Universe:
         self.hashable_items = True
         self.self_keyed = False
         if name == "selfstr":
-            self.specs = ["a", "b", "c"]
+            self.specs = ["a", "b", ""]
             self.make = lambda s: s
             self.kf = lambda it: it
             self.self_keyed = True
+        elif name == "modint":
+            # ints keyed by value % 3: contains falsy items (0) and items that are also keys of other items
+            self.specs = [(k, p) for k in (0, 1, 2) for p in (0, 1)]
+            self.make = lambda s: s[0] + 3 * s[1]
+            self.kf = lambda it: it % 3
+            self.keyfn = lambda it: it % 3
         elif name in ("tuple", "typed_tuple"):
             self.specs = [(k, p) for k in "abc" for p in (0, 1)]
             self.make = lambda s: (s[0], s[1])
@@ -99,7 +105,7 @@ class Universe:
         return cls(list(items), key=self.keyfn, enforce_item_equivalence=flag)
 
 
-UNIVERSES = ["selfstr", "tuple", "listitems", "spec", "typed_tuple", "typed_spec"]
+UNIVERSES = ["selfstr", "tuple", "listitems", "spec", "typed_tuple", "typed_spec", "modint"]
 
 
 class Raise(Exception):
@@ -118,13 +124,27 @@ def same(a, b):
 # -- model ------------------------------------------------------------------
 
 
-def m_contains(U, M, x, is_key):
-    if is_key:
-        return x in M
-    k = U.kf(x)
-    if k not in M:
-        return False
-    return (not U.flag) or same(M[k], x)
+def m_resolve(U, M, x):
+    """Key of the stored item that `x` addresses (documented order: x as a key first, then x as an item), or None."""
+    try:
+        if x in M:
+            return x
+    except TypeError:
+        pass
+    try:
+        k = U.kf(x)
+    except Exception:
+        return None
+    try:
+        if k in M and ((not U.flag) or same(M[k], x)):
+            return k
+    except TypeError:
+        return None
+    return None
+
+
+def m_contains(U, M, x, is_key=False):
+    return m_resolve(U, M, x) is not None
 
 
 def m_add(U, M, x, badfam):
@@ -152,12 +172,11 @@ def model_apply(U, M, name, args):
         return None
     if name in ("discard", "remove"):
         kind, x = args[0]
-        present = m_contains(U, M, x, kind == "key")
-        if not present:
+        k = m_resolve(U, M, x)
+        if k is None:
             if name == "remove":
                 raise Raise("key")
             return None
-        k = x if kind == "key" else U.kf(x)
         del M[k]
         return None
     if name == "pop":
@@ -269,6 +288,14 @@ def obs(fn):
         return ("exc", type(e))
 
 
+def _hashable(x):
+    try:
+        hash(x)
+        return True
+    except TypeError:
+        return False
+
+
 def _fmt(o):
     if o[0] == "exc":
         return f"raises {o[1].__name__ if isinstance(o[1], type) else o[1]}"
@@ -299,8 +326,11 @@ def compare_view(U, s, M, probes):
     if not U.self_keyed:
         for it in probes["items"]:
             k = U.kf(it)
-            chk(f"{safe_repr(it, 30)} in s", obs(lambda: it in s), ("ok", m_contains(U, M, it, False)))
-            if k not in M:
+            chk(f"{safe_repr(it, 30)} in s", obs(lambda: it in s), ("ok", m_contains(U, M, it)))
+            as_key = _hashable(it) and it in M
+            if as_key:
+                chk(f"s[{safe_repr(it, 30)}] (is a key)", obs(lambda: s[it]), ("ok", M[it]), True)
+            elif k not in M:
                 chk(f"s[{safe_repr(it, 30)}]", obs(lambda: s[it]), ("exc", "any"))
             elif not U.flag or same(M[k], it):
                 chk(f"s[{safe_repr(it, 30)}]", obs(lambda: s[it]), ("ok", M[k]), True)
@@ -341,8 +371,8 @@ def check_result_set(U, d, keys, allowed):
         other = None
         for sp in U.specs:
             c = U.make(sp)
-            if U.kf(c) == k0 and not same(c, stored):
-                other = c
+            if U.kf(c) == k0 and not same(c, stored) and not (_hashable(c) and c in keys):
+                other = c  # same key, other payload, and not itself a key of the result (key lookup goes first)
                 break
         if other is not None:
             r = obs(lambda: other in d)
